@@ -36,6 +36,9 @@ def wl_heavy(ctx, rng, case):
     from probables.exceptions import NotSupportedError
 
     keys = gen.ascii_universe(rng, rng.randint(3, 10)) if rng.random() < 0.6 else [k for k in gen.universe(rng, rng.randint(3, 10), kinds=("str",))]
+    if rng.random() < 0.25:
+        keys = keys + [gen.to_bytes(k) for k in rng.sample(keys, min(len(keys), 3))]  # twins: "k1" and b"k1" are distinct keys (same counters)
+        ctx.count("universes_with_text_and_bytes_spellings")
     H = rng.randint(1, 4)
     width, depth = rng.choice([1, 2, 3, 4, 5, 50]), rng.randint(1, 3)
     hname, hf = gen.pick_hash(rng, keys)
@@ -123,6 +126,9 @@ def wl_threshold(ctx, rng, case):
     import probables as P
 
     keys = gen.ascii_universe(rng, rng.randint(2, 8)) if rng.random() < 0.6 else [k for k in gen.universe(rng, rng.randint(2, 8), kinds=("str",))]
+    if rng.random() < 0.25:
+        keys = keys + [gen.to_bytes(k) for k in rng.sample(keys, min(len(keys), 3))]
+        ctx.count("universes_with_text_and_bytes_spellings")
     T = rng.randint(1, 8)
     width, depth = rng.choice([1, 1, 2, 3, 4, 5, 50]), rng.randint(1, 3)
     hname, hf = gen.pick_hash(rng, keys)
